@@ -1,3 +1,30 @@
+/-
+Theorems about the AArch64 assembly of /repo/src/core/arch/aarch64/{bigint.s, multiply.s}, as regenerated into
+`JediVerif/Gen/AsmA64.lean` by translate/arm2lean.py and given meaning by the interpreter of `JediVerif/Impl/A64.lean`.
+This file: the shared infrastructure and the three leaf routines `bigint_384_add`, `bigint_384_subtract`,
+`bigint_384_multiply2`; the multiplication, squaring, Montgomery reduction and the two fused routines are in
+`A64ProofsMul.lean`, `A64ProofsSqr.lean`, `A64ProofsMont.lean`, `A64ProofsFpMul{Parts,}.lean`, `A64ProofsFpSqr{Parts,}.lean`;
+the property statements in `Properties/C03c.lean`.
+
+For EVERY machine state that satisfies AAPCS64 at the routine's entry (arbitrary pointer values, memory contents,
+other registers; the flags N Z C V unknown; the objects 8-byte aligned, inside the address space, readable / writable
+as the C signature says) the theorem `*_run` says: running the generated program for the stated number of steps
+  * ends in `halted` by `ret` to the address in X30, with SP, X19–X29 and X18 unchanged (`Returned`) — in particular no
+    fault: no unaligned or unpermitted access, no SP-alignment fault, no use of an unknown flag;
+  * leaves in the result object exactly the Nat-level contract — the same contracts the portable models meet in
+    `Properties/C02.lean` and the x86-64 routines in `Properties/C03.lean`, `C03b.lean`;
+  * changes no other memory (except the register save area just below SP, for the routines that have one).
+
+Method (the one of `AsmProofs.lean` for x86-64): symbolic execution by `simp` with one equation per instruction form
+(`a64_sym`; `fetchInstr` reads the instruction out of the generated array literal, `runStep` takes a step only on an
+explicit state record whose status is `running`), on a state whose registers and memory words are variables; every
+intermediate `addWithCarry` / `mulLo` / `mulHi` result is named beforehand so the terms stay small; side conditions
+(alignment, no wrap-around, read-over-write address inequalities) are looked up in the context or go to `omega` in a
+context reduced to the one relevant separation hypothesis (`Hide`, `omega_hidden`).  AArch64 specifics: post-/pre-index
+addressing with write-back (pointer registers become `p + 16#64·k`, normalised by `BitVec.add_assoc`; SP-relative
+addresses `sp − 16·k` by `sub16x…_toNat`), the SP alignment check on every SP-based access, subtraction as
+`AddWithCarry(x, NOT y, C)` with C = NOT borrow (`sbc_spec`), `cset` (`cselAlt`, `cset_toNat`).
+-/
 import JediVerif.Gen.AsmA64
 import JediVerif.Proofs.AsmMulProofs
 import Lean
